@@ -669,9 +669,201 @@ func fieldName(t types.Type, idx int) string {
 		t = p.Elem()
 	}
 	if s, ok := t.Underlying().(*types.Struct); ok && idx < s.NumFields() {
+		if n, isNamed := t.(*types.Named); isNamed && n.Obj().Pkg() != nil && n.Obj().Pkg().Path() == modulePath+"/environment" && n.Obj().Name() == "Environment" {
+			if c := envFieldRole(n, s, idx); c != "" {
+				return c
+			}
+		}
+		if roles, ok := scannerFieldRoles[typeStr(t)]; ok {
+			if c, ok := roles[idx]; ok {
+				return c
+			}
+		}
 		return s.Field(idx).Name()
 	}
 	return fmt.Sprintf("f%d", idx)
+}
+
+// scannerFieldRoles: struct type (lexer.Scanner, or a struct it embeds by value) → field index → the name the rules use
+// for that field (source, tokens, start, current, line), found by what the field is and does — see
+// computeScannerFieldRoles.  Empty when the fields carry those names already or the roles cannot be told apart.
+var scannerFieldRoles = map[string]map[int]string{}
+
+// computeScannerFieldRoles: the scanner's five fields are known by type and use, whatever they are called: the one []rune
+// is the source, the one []token.Token the token list; of the three integers, *current* is the one the source is indexed
+// with, *line* the one handed to the token constructor as the line (or to GlobalError), *start* the third.
+func (p *Prog) computeScannerFieldRoles() {
+	scannerFieldRoles = map[string]map[int]string{}
+	pk := p.Pkg("lexer")
+	if pk == nil {
+		return
+	}
+	sc, _ := pk.Members["Scanner"].(*ssa.Type)
+	if sc == nil {
+		return
+	}
+	type place struct {
+		t   string
+		idx int
+	}
+	var runes, toks, ints []place
+	names := map[place]string{}
+	var collect func(t types.Type, depth int)
+	collect = func(t types.Type, depth int) {
+		st, ok := t.Underlying().(*types.Struct)
+		if !ok || depth > 2 {
+			return
+		}
+		for i := 0; i < st.NumFields(); i++ {
+			f := st.Field(i)
+			pl := place{typeStr(t), i}
+			names[pl] = f.Name()
+			switch u := f.Type().Underlying().(type) {
+			case *types.Slice:
+				if b, ok := u.Elem().Underlying().(*types.Basic); ok && b.Kind() == types.Int32 {
+					runes = append(runes, pl)
+				} else if typeStr(u.Elem()) == "token.Token" {
+					toks = append(toks, pl)
+				}
+			case *types.Basic:
+				if u.Kind() == types.Int {
+					ints = append(ints, pl)
+				}
+			}
+			if promotedThrough(t, i) {
+				collect(f.Type(), depth+1)
+			}
+		}
+	}
+	collect(sc.Type(), 0)
+	if len(runes) != 1 || len(toks) != 1 || len(ints) != 3 {
+		return
+	}
+	placeOf := func(v ssa.Value) (place, bool) {
+		// a load of a field (through constant offsets)
+		for hops := 0; hops < 3; hops++ {
+			if bo, ok := v.(*ssa.BinOp); ok && (bo.Op == token.ADD || bo.Op == token.SUB) {
+				if _, isC := bo.Y.(*ssa.Const); isC {
+					v = bo.X
+					continue
+				}
+			}
+			break
+		}
+		u, ok := v.(*ssa.UnOp)
+		if !ok || u.Op != token.MUL {
+			return place{}, false
+		}
+		fa, ok := u.X.(*ssa.FieldAddr)
+		if !ok {
+			return place{}, false
+		}
+		return place{typeStr(derefT(fa.X.Type())), fa.Field}, true
+	}
+	isInt := func(pl place) bool {
+		for _, q := range ints {
+			if q == pl {
+				return true
+			}
+		}
+		return false
+	}
+	cur, line := map[place]bool{}, map[place]bool{}
+	for _, fn := range p.funcs {
+		if fn.Blocks == nil || fn.Package() == nil || fn.Package().Pkg.Name() != "lexer" {
+			continue
+		}
+		instrsOf(fn, func(in ssa.Instruction) {
+			switch x := in.(type) {
+			case *ssa.IndexAddr:
+				if src, ok := placeOf(x.X); ok && src == runes[0] {
+					if pl, ok := placeOf(x.Index); ok && isInt(pl) {
+						cur[pl] = true
+					}
+				}
+			case *ssa.Call:
+				sc := x.Call.StaticCallee()
+				if sc == nil || sc.Package() == nil {
+					return
+				}
+				argAt := -1
+				switch {
+				case sc.Package().Pkg.Name() == "token" && sc.Signature.Params().Len() == 4:
+					argAt = 3
+				case sc.Package().Pkg.Name() == "utils" && sc.Name() == "GlobalError":
+					argAt = 0
+				}
+				if argAt >= 0 && argAt < len(x.Call.Args) {
+					if pl, ok := placeOf(x.Call.Args[argAt]); ok && isInt(pl) {
+						line[pl] = true
+					}
+				}
+			}
+		})
+	}
+	if len(cur) != 1 || len(line) != 1 {
+		return
+	}
+	roles := map[place]string{runes[0]: "source", toks[0]: "tokens"}
+	for pl := range cur {
+		roles[pl] = "current"
+	}
+	for pl := range line {
+		if roles[pl] != "" {
+			return
+		}
+		roles[pl] = "line"
+	}
+	for _, pl := range ints {
+		if roles[pl] == "" {
+			roles[pl] = "start"
+		}
+	}
+	same := true
+	for pl, r := range roles {
+		if names[pl] != r {
+			same = false
+		}
+	}
+	if same {
+		return
+	}
+	for pl, r := range roles {
+		if scannerFieldRoles[pl.t] == nil {
+			scannerFieldRoles[pl.t] = map[int]string{}
+		}
+		scannerFieldRoles[pl.t][pl.idx] = r
+	}
+}
+
+// envFieldRole: the two fields of a scope are known by what they are, whatever they are called — the one table from names
+// to values is "Values", the one link to another Environment is "Parent" (the names the rules are written in).
+func envFieldRole(n *types.Named, s *types.Struct, idx int) string {
+	maps, links := 0, 0
+	role := ""
+	for i := 0; i < s.NumFields(); i++ {
+		ft := s.Field(i).Type()
+		switch u := ft.Underlying().(type) {
+		case *types.Map:
+			if b, ok := u.Key().Underlying().(*types.Basic); ok && b.Kind() == types.String {
+				maps++
+				if i == idx {
+					role = "Values"
+				}
+			}
+		case *types.Pointer:
+			if types.Identical(u.Elem(), n) {
+				links++
+				if i == idx {
+					role = "Parent"
+				}
+			}
+		}
+	}
+	if (role == "Values" && maps == 1) || (role == "Parent" && links == 1) {
+		return role
+	}
+	return ""
 }
 
 // promotedThrough: is field idx of struct t a struct embedded by value whose fields are thereby fields of t (type S
